@@ -18,7 +18,7 @@ Rec == ndJsonDeserialize(IOEnv.TRACE)
 KvCfg == JsonDeserialize(IOEnv.KVCFG)
 Active == SeqSet(KvCfg.monitors)
 
-VARIABLES l, st
+VARIABLES l, st, stats
 
 NoRun == [job |-> "", run |-> 0]
 Fresh(e) ==
@@ -28,7 +28,7 @@ Fresh(e) ==
      fs |-> [ents |-> e.snap.ents, inos |-> e.snap.inos],
      fds |-> <<>>, dirty |-> {}, syncfail |-> {}, pubs |-> <<>>, supplied |-> {}, planted |-> {},
      cur |-> <<>>, steps |-> <<>>, listed |-> <<>>, tlisted |-> <<>>, created |-> <<>>, opfds |-> <<>>, opens |-> <<>>,
-     faulted |-> <<>>, faultcall |-> <<>>, unlinkfailed |-> <<>>,
+     faulted |-> <<>>, faultcall |-> <<>>, unlinkfailed |-> <<>>, prune |-> <<>>,
      viol |-> {}, fsmis |-> {}, nsys |-> 0]
 
 InitSt == Fresh([job |-> "", run |-> 0, gran |-> 0, atime |-> "relatime", snap |-> EmptyFS])
@@ -87,6 +87,8 @@ SysStep(s, e) ==
         faultcall2 == IF Has(e, "inj") THEN Put(s.faultcall, p, e.call) ELSE s.faultcall
         unlinkfailed2 == IF e.call = "unlink" /\ e.res \notin {"ok", "ENOENT"} /\ tgt \notin {"NONE", "DIR"}
                          THEN Put(s.unlinkfailed, p, Get(s.unlinkfailed, p, {}) \cup {tgt}) ELSE s.unlinkfailed
+        prune2 == IF InLib(e) /\ e.call = "open" /\ e.res = "ok" /\ Has(e, "isdir") /\ IsCacheDir(s.cfg, DirId(e.path))
+                  THEN Put(s.prune, p, [d |-> DirId(e.path), fs |-> s.fs, fd |-> e.fd]) ELSE s.prune
         supplied2 == s.supplied \cup
             (IF e.ph = "world" /\ e.call \in {"write"} /\ tgt \in DOMAIN fs2.inos /\ Has(fs2.inos[tgt].c, "key")
              THEN {<<fs2.inos[tgt].c.key, fs2.inos[tgt].c.val>>} ELSE {})
@@ -94,7 +96,7 @@ SysStep(s, e) ==
                  !.pubs = NewPubs(s.cfg, fs2, s.pubs), !.created = created2, !.planted = planted2,
                  !.steps = steps2, !.listed = listed2, !.tlisted = tlisted2, !.opfds = opfds2, !.opens = opens2,
                  !.faulted = faulted2, !.faultcall = faultcall2, !.unlinkfailed = unlinkfailed2, !.supplied = supplied2,
-                 !.nsys = @ + 1,
+                 !.prune = prune2, !.nsys = @ + 1,
                  !.fsmis = @ \cup (IF predok THEN {} ELSE {<<e.seq, "pred">>}) \cup (IF effok THEN {} ELSE {<<e.seq, "eff">>})]
 
 ExtStep(s, e) ==    \* crash / age / adversary / mark: trust the snapshot
@@ -123,7 +125,11 @@ Step(s, e) ==
 \* ---- monitors -------------------------------------------------------------
 Mon(name, ok) == IF name \in Active /\ ~ok THEN {name} ELSE {}
 
+\* world-building steps of the test driver are not the library's: never judged
+WorldStep(e) == (Has(e, "ph") /\ e.ph = "world") \/ (Has(e, "world") /\ e.world)
+
 Violations(s, e, s2) ==
+    IF WorldStep(e) THEN {} ELSE
     LET cfg == s.cfg
         isSys == e.e = "sys"
         isRet == e.e = "ret"
@@ -134,6 +140,7 @@ Violations(s, e, s2) ==
     \cup (IF isSys \/ e.e \in {"crash", "age", "advdel"} THEN
               Mon("Immutable", ImmutableStep(s, e, s2)) \cup Mon("ROUntouched", ROUntouched(cfg, s, e, s2))
               \cup Mon("DotFilesUntouched", DotFilesUntouched(cfg, s, e, s2))
+              \cup Mon("OutsideUntouched", OutsideUntouched(cfg, s, e, s2))
           ELSE {})
     \cup (IF isSys THEN
               Mon("DurableFirst", DurableFirst(cfg, s, e)) \cup Mon("ReadOnlyFirst", ReadOnlyFirst(cfg, s, e))
@@ -148,26 +155,49 @@ Violations(s, e, s2) ==
               \cup Mon("FaultOK", FaultOK(cfg, s, e)) \cup Mon("FollowUpOK", FollowUpOK(s, e)) \cup Mon("NoLeak", NoLeak(cfg, s, e))
               \cup Mon("NoResidue", NoResidue(s, e)) \cup Mon("TwoOpensPerDir", TwoOpensPerDir(s, e))
           ELSE {})
+    \cup (IF isSys /\ e.call = "close" /\ e.p \in DOMAIN s.prune /\ s.prune[e.p].fd = e.fd /\ InLib(e)
+             /\ Has(e, "fdpath") /\ DirId(e.fdpath) = s.prune[e.p].d
+          THEN Mon("PruneOK", PruneOK(s.prune[e.p].fs, s2.fs, s.prune[e.p].d,
+                                      IF e.api = "prune" THEN s.cur[e.p].cap ELSE
+                                      IF Has(cfg, "shardcap") /\ ~(s.prune[e.p].d \in {r.id : r \in Roots(cfg)}) THEN cfg.shardcap ELSE cfg.cap))
+          ELSE {})
     \cup (IF e.e = "stuck" THEN Mon("SoloCompletes", FALSE) ELSE {})
 
 \* ---- the trace specification ---------------------------------------------
-Init == l = 1 /\ st = InitSt
+\* how often the antecedents of the monitors were true (vacuity guard; reported to the driver)
+Bump(f, k, yes) == IF yes THEN Put(f, k, Get(f, k, 0) + 1) ELSE f
+StatsAfter(s, e, s2) ==
+    LET a == Bump(stats, "sys", e.e = "sys" /\ ~WorldStep(e))
+        b == Bump(a, "publishes", e.e = "sys" /\ ~WorldStep(e) /\ Publishes(s.cfg, e))
+        c == Bump(b, "prunes_judged", e.e = "sys" /\ e.call = "close" /\ e.p \in DOMAIN s.prune /\ s.prune[e.p].fd = e.fd /\ InLib(e))
+        d == Bump(c, "returns", e.e = "ret" /\ ~WorldStep(e))
+        f == Bump(d, "handles", e.e = "obs" /\ Has(e, "handle"))
+        g == Bump(f, "lib_unlinks", e.e = "sys" /\ e.call = "unlink" /\ e.res = "ok" /\ InLib(e))
+        h == Bump(g, "crashes", e.e = "crash")
+        i == Bump(h, "injected", e.e = "sys" /\ Has(e, "inj"))
+        j == Bump(i, "ro_dirs_seen", e.e = "reset" /\ FALSE)
+    IN j
+
+Init == l = 1 /\ st = InitSt /\ stats = <<>>
 
 Next ==
     /\ l <= Len(Rec)
     /\ l' = l + 1
     /\ LET e == Rec[l] IN
-       IF e.e = "reset" THEN st' = Fresh(e)
+       IF e.e = "reset" THEN st' = Fresh(e) /\ stats' = Bump(stats, "runs", TRUE)
        ELSE IF e.e = "endrun" THEN
+            /\ UNCHANGED stats
+            /\ (l = Len(Rec) => PrintT(<<"STATS", ToJson(stats)>>))
             /\ (st.viol # {} \/ st.fsmis # {}) =>
                   PrintT(<<"VERDICT", ToJson([job |-> st.run.job, run |-> st.run.run,
                                               viol |-> st.viol, fsmis |-> st.fsmis])>>)
             /\ st' = [st EXCEPT !.viol = {}, !.fsmis = {}]
        ELSE LET s2 == Step(st, e)
                 v == Violations(st, e, s2)
-            IN st' = [s2 EXCEPT !.viol = @ \cup {<<e.seq, n>> : n \in v}]
+            IN /\ st' = [s2 EXCEPT !.viol = @ \cup {<<e.seq, n>> : n \in v}]
+               /\ stats' = StatsAfter(st, e, s2)
 
-Spec == Init /\ [][Next]_<<l, st>>
+Spec == Init /\ [][Next]_<<l, st, stats>>
 
 Accepted ==
     /\ PrintT(<<"TRACE-END", TLCGet("stats").diameter - 1, Len(Rec)>>)
